@@ -161,6 +161,24 @@ def run(rep):
             if decl.startswith("attribute::"):
                 sheets.append({"name": "settings", "header": [decl], "rows": [["http://example.com/foo"]]})
             jobs.append({"wb": {"sheets": sheets}, "fmt": "dict", "parts": ("c01",), "tag": {"scoped_declaration": decl, "use": use, "use_row": row}})
+    # ... and the same prefixed name used in two places of one form, of which one may be inside the declaring element and the other outside
+    # (a validator that remembers names it has already looked at must not forget where the declaration is in scope)
+    import itertools as _it
+    uses = [(u, r) for u in ("instance::foo:x", "bind::foo:bar", "body::foo:w") for r in (0, 1, 3)]      # rows: 0 = group g, 1 = q1 inside g, 3 = q2 after g
+    for decl, drow in (("instance::xmlns:foo", 0), ("instance::xmlns:foo", 1), ("bind::xmlns:foo", 1), ("body::xmlns:foo", 0), ("body::xmlns:foo", 1), ("attribute::xmlns:foo", None)):
+        for (ua, ra), (ub, rb) in _it.combinations(uses, 2):
+            cols = [ua] if ua == ub else [ua, ub]
+            hdr = ["type", "name", "label"] + cols + ([decl] if drow is not None else [])
+            rows = [["begin group", "g", "G"], ["text", "q1", "Q1"], ["end group", None, None], ["text", "q2", "Q2"]]
+            rows = [r + [None] * (len(hdr) - 3) for r in rows]
+            rows[ra][3 + cols.index(ua)] = "v"
+            rows[rb][3 + cols.index(ub)] = "v"
+            if drow is not None:
+                rows[drow][len(hdr) - 1] = "http://example.com/foo"
+            sheets = [{"name": "survey", "header": hdr, "rows": rows}]
+            if drow is None:
+                sheets.append({"name": "settings", "header": [decl], "rows": [["http://example.com/foo"]]})
+            jobs.append({"wb": {"sheets": sheets}, "fmt": "dict", "parts": ("c01",), "tag": {"scoped_declaration": decl, "decl_row": drow, "uses": [[ua, ra], [ub, rb]]}})
     for ch in TEXT_CHANNELS:
         for cls, text in TEXT_TOKENS.items():
             jobs.append({"wb": text_form(ch, text), "fmt": "dict", "parts": ("c01",), "tag": {"text_channel": ch, "token": cls}})
